@@ -9,6 +9,7 @@ import (
 	"github.com/oasisprotocol/ed25519/extra/x25519"
 	"github.com/oasisprotocol/ed25519/verifh/ev"
 	"github.com/oasisprotocol/ed25519/verifh/gen"
+	"github.com/oasisprotocol/ed25519/verifh/mon"
 	"github.com/oasisprotocol/ed25519/verifh/ref"
 )
 
@@ -33,6 +34,8 @@ func safe(fn func()) {
 func apiRounds(cfg *Cfg, rec *ev.Rec, n int, stream string) {
 	rng := cfg.rng(stream)
 	so := ref.SmallOrderEncodings()
+	mon.Phase = "api"
+	defer func() { mon.Phase = "direct" }()
 	for i := 0; i < n; i++ {
 		rec.Eval("api-round")
 		safe(func() {
